@@ -160,6 +160,22 @@ CLAIMS = {
     design_ref="DESIGN.md section 5 C04",
     note="As C09. Programs on which the compiler itself fails are outside C04 (C06).",
     technique="Lean 4 theorems over the operator / error-delivery model (partial) + differential correspondence + fault-injection oracle on two build profiles"),
+ "C05": dict(
+    category="proof",
+    text=("Translator-style: on every run the corpus sources are compiled with /repo's compiler and "
+          "lean/Generated/C05.lean is regenerated with one theorem per (source, reference) pair: the model's "
+          "exhaustive exploration of both documents along EVERY choice path (depth 12; 6 for the 15 stories that "
+          "loop for ever) yields the same log of lines, tags, choices, end status and final globals; for 105 pairs "
+          "the exploration is complete, i.e. the theorem covers all choice paths. The theorems are closed by "
+          "native_decide (declared in the trusted base). The Intercept (2 x 160 kB, depth 4) has no theorem and is "
+          "decided by oracle + tie only; 8 pairs that genuinely differ are known findings (compiler deviations in "
+          "choice text / glue after a divert), each reported per file. Tie: the same exploration on the real runtime "
+          "(branching by save/load) equals the model's log for both documents. Oracle: real logs of the two "
+          "documents are equal."),
+    design_ref="DESIGN.md section 5 C05",
+    note="native_decide: the exploration is evaluated by compiled code, not by the kernel. Shuffle stories are "
+         "compared modulo the shuffle (line text blanked).",
+    technique="Lean 4 per-pair theorems regenerated from the compiler's output (native_decide) + differential exploration on the real runtime"),
 }
 
 REASONS_PENDING = "check not built yet in this revision of /verif (see DESIGN.md section 9.1 for the order of work)"
